@@ -206,7 +206,7 @@ def run_mtl(desc, k, retain, hooks=True):
         for i, f in enumerate(b.features):
             h.add(f"feat{i}", f)
         for hi, vals in enumerate(b.head_values):
-            base = len(desc["heads"][hi]["features"]) + len(desc["heads"][hi]["leaves"]) + len(desc["heads"][hi]["around"])
+            base = len(desc["heads"][hi]["features"]) + len(desc["heads"][hi]["leaves"]) + len(desc["heads"][hi]["around"]) + len(desc["heads"][hi].get("around_values", []))
             for i, v in enumerate(vals[base:]):
                 if not isinstance(v, tuple) and v is not b.losses[hi]:
                     h.add(f"head{hi}.v{i}", v)
